@@ -634,7 +634,7 @@ impl ToplevelDefinition {
     pub(crate) fn apply_tagging_environment(&mut self, environment: &TaggingEnvironment) {
         if let ToplevelDefinition::Type(ty) = self {
             if let Some(tag) = ty.tag.as_mut() {
-                tag.environment = environment + &tag.environment;
+                tag.apply_tagging_environment(environment, &ty.ty);
             }
             ty.ty.apply_tagging_environment(environment);
         }
@@ -821,19 +821,19 @@ impl ASN1Type {
         match self {
             ASN1Type::Sequence(s) | ASN1Type::Set(s) => s.members.iter_mut().for_each(|m| {
                 if let Some(tag) = m.tag.as_mut() {
-                    tag.environment = environment + &tag.environment;
+                    tag.apply_tagging_environment(environment, &m.ty);
                 }
                 m.ty.apply_tagging_environment(environment);
             }),
             ASN1Type::Choice(c) => c.options.iter_mut().for_each(|o| {
                 if let Some(tag) = o.tag.as_mut() {
-                    tag.environment = environment + &tag.environment;
+                    tag.apply_tagging_environment(environment, &o.ty);
                 }
                 o.ty.apply_tagging_environment(environment);
             }),
             ASN1Type::SequenceOf(s) | ASN1Type::SetOf(s) => {
                 if let Some(tag) = s.element_tag.as_mut() {
-                    tag.environment = environment + &tag.environment;
+                    tag.apply_tagging_environment(environment, &s.element_type);
                 }
                 s.element_type.apply_tagging_environment(environment);
             }
@@ -1301,6 +1301,23 @@ pub struct AsnTag {
     pub environment: TaggingEnvironment,
     pub tag_class: TagClass,
     pub id: u64,
+}
+
+impl AsnTag {
+    /// Resolves the tagging mode of a tag that prefixes `tagged_type` in a module
+    /// with the tagging default `environment`.
+    pub(crate) fn apply_tagging_environment(
+        &mut self,
+        environment: &TaggingEnvironment,
+        tagged_type: &ASN1Type,
+    ) {
+        self.environment = match (self.environment, tagged_type) {
+            // ITU-T X.680 section 31.2.7 clause c: a tag without IMPLICIT or EXPLICIT
+            // keyword is an explicit tag if the tagged type is an open type
+            (TaggingEnvironment::Automatic, ASN1Type::Any) => TaggingEnvironment::Explicit,
+            (tag_environment, _) => environment + &tag_environment,
+        };
+    }
 }
 
 impl From<((Option<&str>, u64), Option<TaggingEnvironment>)> for AsnTag {
